@@ -134,7 +134,7 @@ def integ_order(check, proj):
             ai, outs = run_step(proj, c)
             T = rk.extract(outs[0], name)
         except AnalysisError as e:
-            check.undecided("INTEG-ORDER", c.qualname, "abstract interpretation failed: %s" % e, loc)
+            check.failed("INTEG-ORDER", c.qualname, e, loc, "abstract interpretation failed")
             continue
         probs = [t for r, t in T.problems if rk.problem_kind(r, t) == "update"]     # stage times and local steps do not enter an autonomous problem with one global step
         if probs:
